@@ -197,4 +197,16 @@ example : let s := OSet.run (α := Nat) [.add 10, .add 11, .add 12, .pop (-3), .
 example : ((OSet.run (α := Nat) [.add 1]).step (.pop 5)).2 = .error .indexError := by rfl
 example : ((OSet.run (α := Nat) []).step (.pop (-1))).2 = .error .keyError := by rfl
 
+/-- **Slice deletion** `del c[a:b:k]` on a list-like feature (specification `pyDelSlice`, the positions of
+`slice(a, b, k).indices(len(c))` as CPython computes them — omitted, negative and out-of-range bounds, negative steps):
+what remains is what was there, in its order, nothing added. -/
+theorem C04_delslice_sublist {α : Type} (l : List α) (a b : Option Int) (k : Int) : (pyDelSlice l a b k).Sublist l := by
+  unfold pyDelSlice
+  have h : ((l.zipIdx.filter (fun (x : α × Nat) => !(slicePositions l.length a b k).contains x.2)).map (·.1)).Sublist
+      (l.zipIdx.map (·.1)) := (List.filter_sublist).map _
+  simpa using h
+
+example : pyDelSlice [10, 11, 12, 13, 14] none none (-2) = [11, 13] ∧ pyDelSlice [10, 11, 12, 13, 14] (some 4) (some 0) (-2) = [10, 11, 13] ∧
+    pyDelSlice [10, 11, 12] (some (-9)) (some 9) 1 = [] ∧ pyDelSlice [10, 11, 12] (some 1) none 3 = [10, 12] := by decide
+
 end Py
